@@ -1146,35 +1146,6 @@ fn main() {
         );
     }
 
-    if std::env::var("C20_BENCH").is_ok() {
-        let n = 100_000;
-        let t = std::time::Instant::now();
-        for _ in 0..n {
-            let rt = tokio::runtime::Builder::new_current_thread().enable_time().start_paused(true).build().unwrap();
-            drop(rt);
-        }
-        println!("runtime build: {:?}/iter", t.elapsed() / n);
-        let t = std::time::Instant::now();
-        let sh = Arc::new(Mutex::new(Shared { kind: 0, step: 0, now_ms: 0, log: Vec::new(), bad: None }));
-        for _ in 0..n {
-            let c = cache::Connection::with_config(Upstream(sh.clone()), make_cfg(0));
-            drop(c);
-        }
-        println!("cache new: {:?}/iter", t.elapsed() / n);
-        let h = [Step { adv_ms: 0, q: 0, f: RD | DO, ans: 18 }, Step { adv_ms: 4000, q: 0, f: 0, ans: 0 }, Step { adv_ms: 0, q: 0, f: 0, ans: 0 }];
-        let t = std::time::Instant::now();
-        for _ in 0..n {
-            let _ = run_history(0, &h);
-        }
-        println!("run_history(3 steps): {:?}/iter", t.elapsed() / n);
-        let t = std::time::Instant::now();
-        let mut loc = Local::default();
-        for _ in 0..n {
-            eval_history(&ctx, "b", 0, &h, &mut loc, false);
-        }
-        println!("eval_history(3 steps): {:?}/iter", t.elapsed() / n);
-        return;
-    }
     let quick = ctx.quick();
     let global = Mutex::new(Local::default());
     let stats = Stats::new();
@@ -1201,6 +1172,10 @@ fn main() {
     }
     adv1.sort();
     let adv2: Vec<u64> = if quick { vec![0, 5000, 10000, 11000] } else { vec![0, 1000, 5000, 5500, 10000, 11000] };
+    // first probe of fill·probe·probe
+    let adv2a: Vec<u64> = if quick { vec![0, 5000, 11000] } else { adv2.clone() };
+    // b.ex/A is the mirror image of a.ex/A: the quick tier leaves it out of the three-step shape
+    let fills2: Vec<Step> = fills.iter().filter(|f| !quick || f.q != 1).copied().collect();
     let cfgs1: Vec<usize> = (0..CFGS.len()).collect();
     let cfgs2: Vec<usize> = if quick { vec![0] } else { (0..CFGS.len()).collect() };
 
@@ -1222,12 +1197,12 @@ fn main() {
     });
 
     // ---- shape 2: fill · probe · probe
-    let items: Vec<(usize, Step)> = cfgs2.iter().flat_map(|&c| fills.iter().map(move |f| (c, *f))).collect();
+    let items: Vec<(usize, Step)> = cfgs2.iter().flat_map(|&c| fills2.iter().map(move |f| (c, *f))).collect();
     items.par_iter().for_each(|&(c, fill)| {
         wd.enter(|| json!({"shape": "fill-probe-probe", "cfg": c, "fill": step_json(&fill)}));
         let mut loc = Local::default();
         loc.nodes += 1;
-        for &a1 in &adv2 {
+        for &a1 in &adv2a {
             for f1 in 0..16u8 {
                 loc.nodes += 1;
                 for &a2 in &adv2 {
@@ -1363,8 +1338,8 @@ fn main() {
             "distinct_nontrivial": g.nontrivial,
             "rule": "histories are pairwise distinct by construction (odometer over the product of the menus of each shape, per configuration); non-trivial = at least one step was answered without consulting the upstream (served from cache). states = nodes of the per-shape history trees (a node is the cache reached by one history prefix under one configuration; prefixes shared between shapes are counted once per shape); transitions = requests executed on the real cache::Connection",
             "exhaustive": true,
-            "bound_completed": format!("{}: fill·probe ({} configs x {} fills x {} advances x 16 flags), fill·probe·probe ({} configs x {} fills x ({} advances x 16 flags)^2), fill·cross-probe ({} configs x {} fills x 3 other questions x {} advances x 16 flags){}",
-                if quick { "quick" } else { "thorough" }, cfgs1.len(), fills.len(), adv1.len(), cfgs2.len(), fills.len(), adv2.len(), cfgs3.len(), fills.len(), adv3.len(),
+            "bound_completed": format!("{}: fill·probe ({} configs x {} fills x {} advances x 16 flags), fill·probe·probe ({} configs x {} fills x {} advances x 16 flags x {} advances x 16 flags), fill·cross-probe ({} configs x {} fills x 3 other questions x {} advances x 16 flags){}",
+                if quick { "quick" } else { "thorough" }, cfgs1.len(), fills.len(), adv1.len(), cfgs2.len(), fills2.len(), adv2a.len(), adv2.len(), cfgs3.len(), fills.len(), adv3.len(),
                 if quick { "" } else { ", fill·fill'·probe·probe (default config, reduced menus, see menus.shape4)" }),
             "menus": {
                 "questions_fill": ["a.ex/A", "b.ex/A", "a.ex/RRSIG"],
@@ -1373,7 +1348,7 @@ fn main() {
                 "upstream_answers": KINDS,
                 "fills": fills.len(),
                 "advances_ms_fill_probe": adv1,
-                "advances_ms_fill_probe_probe": adv2,
+                "advances_ms_fill_probe_probe": [adv2a.clone(), adv2.clone()],
                 "configs": CFGS.iter().map(|c| format!("{c:?}")).collect::<Vec<_>>(),
                 "shape4": shape4_desc,
             },
